@@ -130,6 +130,10 @@ pub struct World {
     pub concurrent: bool,
     pub had_stash: bool,
     pub draining: bool,
+    /// C15 lock-step oracle: every replica was in sync at the last `SyncAll`; since then only `lock_author` edited
+    pub lock_synced: bool,
+    pub lock_author: Option<usize>,
+    pub lock_broken: bool,
     pub ascii: bool,
     pub nchars: u32,
     /// violations that do not invalidate further monitoring of the same history (first per kind)
@@ -157,6 +161,9 @@ impl World {
             concurrent: false,
             had_stash: false,
             draining: false,
+            lock_synced: true,
+            lock_author: None,
+            lock_broken: false,
             ascii: false,
             nchars: 0,
             soft: vec![],
@@ -247,9 +254,18 @@ impl World {
         self.step_no += 1;
         let n = self.reps.len();
         let mut touched: Vec<usize> = vec![];
+        if matches!(step, Step::Deliver { .. } | Step::Merge { .. } | Step::Relay { .. }) {
+            self.lock_broken = true;
+        }
         match step {
             Step::Txn { r, calls } => {
                 let r = (*r as usize) % n;
+                // exactly one transaction per window: a receiver's clean-up after the first transaction would be
+                // concurrent with the author's second one
+                match self.lock_author {
+                    None => self.lock_author = Some(r),
+                    Some(_) => self.lock_broken = true,
+                }
                 // concurrency fact: the author edits while some message it has not seen exists
                 if self.msgs.iter().enumerate().any(|(k, m)| m.local && !self.delivered[r].contains(&k)) {
                     self.concurrent = true;
@@ -314,7 +330,21 @@ impl World {
                 };
                 self.cnt.inc(&format!("deliver_form{}", form % 4));
                 self.log.push(format!("deliver m{} (form {}) -> r{}", k, form % 4, self.reps[to].cfg.id));
-                let known = self.mon.c06 && self.delivered[to].contains(&k);
+                // "known" = handed before AND actually integrated: an update whose blocks went to the stash (e.g. it was
+                // delivered merged with a blocked update of the same client) is not known to the replica yet, and
+                // delivering it again on its own may legitimately integrate it
+                let known = self.mon.c06 && self.delivered[to].contains(&k) && {
+                    let txn = self.reps[to].doc.transact();
+                    let integ = integrated_units(&yrs::verif::store_blocks(&txn));
+                    match Update::decode_v1(&self.msgs[k].v1) {
+                        Ok(u) => {
+                            let units_ok = yrs::verif::update_blocks(&u).iter().filter(|b| b.kind != 2).all(|b| (b.id.clock..b.id.clock + b.len).all(|c| integ.contains(&(b.id.client.get(), c))));
+                            let ds_ok = crate::model::idset_units(u.delete_set()).iter().all(|x| integ.contains(x));
+                            units_ok && ds_ok && !txn.has_missing_updates()
+                        }
+                        Err(_) => false,
+                    }
+                };
                 let pre = if known { Some(crate::monitors::finger(&self.reps[to].doc, &self.reps[to].roots)) } else { None };
                 let nmsgs = self.msgs.len();
                 self.apply(to, &bytes, v2, &format!("m{}", k))?;
@@ -427,9 +457,18 @@ impl World {
             }
             Step::SyncAll => {
                 self.log.push("sync all".into());
+                if self.mon.c15 && self.lock_synced && !self.lock_broken {
+                    if let Some(a) = self.lock_author {
+                        self.lockstep_check(a)?;
+                    }
+                }
                 self.sync_all(false)?;
                 touched.extend(0..n);
+                self.lock_synced = !self.reps.iter().any(|r| r.doc.transact().has_missing_updates());
+                self.lock_author = None;
+                self.lock_broken = false;
             }
+
             other => {
                 crate::monitors::exec_ext(self, other, &mut touched)?;
             }
@@ -444,6 +483,36 @@ impl World {
 
     /// Delivers every outstanding message to every replica (index order = a causal order) until
     /// nobody emits anything new.
+    /// C15: all replicas were in sync and only `a` has edited since (a sequential history: no concurrency anywhere).
+    /// Garbage collection and formatting clean-up must then be invisible: every other replica, whatever its gc /
+    /// clean-up setting, shows exactly the author's content right after receiving the author's updates - checked
+    /// before the receivers' own clean-up emissions travel anywhere.
+    fn lockstep_check(&mut self, a: usize) -> Result<(), Violation> {
+        let expected = self.reps[a].dump();
+        for to in 0..self.reps.len() {
+            if to == a {
+                continue;
+            }
+            let cand: Vec<usize> = self.candidates(to, false).into_iter().filter(|k| self.msgs[*k].author == a).collect();
+            if cand.is_empty() {
+                continue;
+            }
+            for k in cand {
+                let bytes = self.msgs[k].v1.clone();
+                self.log.push(format!("lockstep m{} -> r{}", k, self.reps[to].cfg.id));
+                self.apply(to, &bytes, false, &format!("m{}", k))?;
+                self.delivered[to].insert(k);
+            }
+            self.cnt.inc("lockstep_comparisons");
+            let got = self.reps[to].dump();
+            if got != expected {
+                let (ca, ct) = (self.reps[a].cfg.clone(), self.reps[to].cfg.clone());
+                return self.v("C15", "lockstep-differs", format!("sequential history (everybody in sync, one author): after receiving the author's updates r{} ({:?}) shows other content than the author r{} ({:?})\n  author:   {}\n  receiver: {}", ct.id, ct, ca.id, ca, expected, got));
+            }
+        }
+        Ok(())
+    }
+
     pub fn sync_all(&mut self, shuffle: bool) -> Result<(), Violation> {
         let n = self.reps.len();
         let mut rounds = 0;
@@ -533,6 +602,23 @@ impl World {
         }
         if let Some(u) = lo.iter().find(|u| !integ.contains(u)) {
             let d = format!("r{}: unit {:?} has all its dependencies integrated (and no earlier block of its client is blocked) but is not integrated; has_missing={}", id, u, missing);
+            if crate::util::debug() {
+                let txn = self.reps[r].doc.transact();
+                eprintln!("--- store of r{}", id);
+                let mut bl = yrs::verif::store_blocks(&txn);
+                bl.sort_by_key(|b| (b.id.client, b.id.clock));
+                for b in &bl {
+                    eprintln!("   {}:{}+{} kind{} del{} o{:?} r{:?} p{:?} {}", b.id.client, b.id.clock, b.len, b.kind, b.deleted, b.origin, b.right_origin, b.parent, b.text);
+                }
+                if let Some(p) = txn.store().pending_update() {
+                    eprintln!("--- pending, missing {:?}", p.missing);
+                    let mut bl = yrs::verif::update_blocks(&p.update);
+                    bl.sort_by_key(|b| (b.id.client, b.id.clock));
+                    for b in &bl {
+                        eprintln!("   {}:{}+{} kind{} o{:?} r{:?} p{:?} {}", b.id.client, b.id.clock, b.len, b.kind, b.origin, b.right_origin, b.parent, b.text);
+                    }
+                }
+            }
             return self.v("C02", "stuck", d);
         }
         if let Some(u) = integ.iter().find(|u| !up.contains(u)) {
